@@ -757,6 +757,12 @@ func (w *dWorld) settle() {
 	buf := make([]byte, 1<<20)
 	for {
 		n := runtime.Stack(buf, true)
+		for n == len(buf) && len(buf) < 1<<28 {
+			// the dump was cut off (goroutines pile up over a long run, the newest come last): a reply goroutine could hide
+			// in the part that is missing
+			buf = make([]byte, 2*len(buf))
+			n = runtime.Stack(buf, true)
+		}
 		if !bytes.Contains(buf[:n], []byte("eni.(*Local).Allocate.func")) && !bytes.Contains(buf[:n], []byte("eni.(*Local).commit")) {
 			return
 		}
